@@ -781,6 +781,149 @@ def run_import_writes(ctx, binary, base):
     return n
 
 
+MODLIB = ("class Box {\n  v: int\n  constructor(self, v: int) {\n    self.v = v\n  }\n}\n"
+          "export const k: int = 2\nexport v: int = 1\nexport const ks: str = \"two\"\nexport flag: bool = false\n"
+          "export lst: [int...] = [1, 2, 3]\nexport o: Box = Box(5)\nexport const co: Box = Box(6)\n"
+          "export get_k: fn() -> int = fn() -> int {\n  return k\n}\nexport get_v: fn() -> int = fn() -> int {\n  return v\n}\n"
+          "export show: fn() -> str = fn() -> str {\n  return [k, v, o.v, co.v, lst.len()].to_str() + ks + flag.to_str()\n}\n")
+
+
+def module_copy_cases():
+    """A module is a value: `m = lib` gives it a name that is not const.  The members the module exports are protected
+    whatever name the module is reached by: every write `=` / op-assign to or through `<module>.<member>` from outside the
+    module is rejected at compile time.  -> [(id, files with the write, files of the twin that READS the same path, class)]"""
+    routes = {            # how the module value gets its name (R = the name)
+        "imported-name": ("", "lib"),
+        "copy": ("m = lib\n", "m"),
+        "copy-of-copy": ("m0 = lib\nm = m0\n", "m"),
+        "typed-later-copy": ("m = lib\nm = lib\n", "m"),
+        "list-element": ("const h = [lib]\nm = h[0]\n", "m"),
+    }
+    targets = [("k", "= 99"), ("k", "+= 1"), ("v", "= 7"), ("v", "+= 41"), ("v", "-= 1"), ("v", "*= 3"), ("v", "%= 2"), ("ks", "= \"x\""), ("ks", "+= \"x\""),
+               ("flag", "= true"), ("o.v", "= 9"), ("o.v", "*= 2"), ("co.v", "= 1"), ("o", "= R.co"), ("lst", "= [4]")]
+    wheres = ["same", "block", "function", "other_module"]
+    out = []
+    for rname, (decl, R) in sorted(routes.items()):
+        for tgt, w in targets:
+            for where in wheres:
+                path = "%s.%s" % (R, tgt)
+                wstmt = "%s %s\n" % (path, w.replace("R.", R + "."))
+                rstmt = "print %s\n" % path
+
+                def body(stmt):
+                    inner = decl + stmt
+                    if where == "same" or where == "other_module":
+                        b = inner
+                    elif where == "block":
+                        b = "if true {\n" + "".join("  " + l + "\n" for l in inner.splitlines()) + "}\n"
+                    else:
+                        b = "g = fn() {\n" + "".join("  " + l + "\n" for l in inner.splitlines()) + "}\ng()\n"
+                    tail = "print \"END\"\nprint lib.show()\n"
+                    if where == "other_module":
+                        return {"lib.ms": MODLIB, "mid.ms": "import lib\n" + b + "export done: int = 1\n",
+                                "main.ms": "import lib\nprint \"MARK\"\nimport mid\n" + tail}
+                    return {"lib.ms": MODLIB, "main.ms": "import lib\nprint \"MARK\"\n" + b + tail}
+                cls = "const-write-accepted:module-member" + ("" if rname == "imported-name" else "-through-copy")
+                out.append(("%s %s / module reached by %s / written from %s" % (path, w, rname, where), body(wstmt), body(rstmt), cls))
+    return out
+
+
+def run_module_copies(ctx, binary, base):
+    cases = module_copy_cases()
+
+    def one(c):
+        return run_files(binary, base, c[1]), run_files(binary, base, c[2])
+    n = legal = 0
+    seen = set()
+    for (cid, fw, fr, cls), (rw, rr) in zip(cases, programs.pmap(one, cases)):
+        n += 1
+        if verdict(*rr) != "accepted" or "END" not in rr[1]:
+            continue                # the path cannot even be read this way: nothing to demand of the write
+        legal += 1
+        vw = verdict(*rw)
+        if vw != "rejected" or "MARK" in rw[1]:
+            if cls in seen:
+                continue
+            seen.add(cls)
+            ctx.report(cls, "`%s`: a write to what a module exports, from outside the module, is %s (the module then shows %r; untouched it shows %r)"
+                       % (cid, vw, program_lines(rw[1])[-1:], program_lines(rr[1])[-1:]),
+                       {"form": cid, "files": fw, "observed": {"rc": rw[0], "stdout": rw[1][-400:], "stderr": rw[2][-400:]},
+                        "how": "mscript run main.ms -q: must fail to compile, nothing printed"})
+    ctx.cov["module_member_writes"] = {"cases": n, "path_readable_this_way": legal}
+    return n
+
+
+def const_field_cases():
+    """The grammar accepts the declaration qualifiers on a class FIELD (`const id: int`).  A field declared const is a name
+    declared const: apart from its initialisation in the constructor no form may assign to it -- from outside, from a
+    method, by its bare name, through an alias, a list element, a closure or another module.  (Refusing the declaration
+    itself also satisfies this: nothing is then 'declared const'.)
+    -> [(id, files with `const` on the field, files of the twin without it, class)]"""
+    def cls_text(q, ty, init, extra=""):
+        return ("class Account {\n  %sid: %s\n  balance: int\n  constructor(self) {\n    self.id = %s\n    self.balance = 0\n  }\n%s}\n" % (q, ty, init, extra))
+    types = {"int": ("7", "8", ["= 8", "+= 5", "*= 2", "-= 1", "%= 4"]), "str": ("\"a\"", "\"b\"", ["= \"b\"", "+= \"b\""]),
+             "bool": ("true", "false", ["= false"]), "[int...]": ("[1]", "[2]", ["= [2]"])}
+    out = []
+    first = ["outside", "alias", "method-self"]
+    for ty, (init, other, writes) in types.items():
+        for w in writes:
+            forms = {
+                "outside": ("", "a = Account()\nprint a.id\na.id %s\nprint \"END\"\nprint a.id\n" % w),
+                "alias": ("", "a = Account()\nprint a.id\nb = a\nb.id %s\nprint \"END\"\nprint a.id\n" % w),
+                "method-self": ("  fn touch(self) {\n    self.id %s\n  }\n" % w, "a = Account()\nprint a.id\na.touch()\nprint \"END\"\nprint a.id\n"),
+                "closure": ("", "a = Account()\nprint a.id\nf = fn() {\n  a.id %s\n}\nf()\nprint \"END\"\nprint a.id\n" % w),
+                "parameter": ("", "a = Account()\nprint a.id\nf = fn(x: Account) {\n  x.id %s\n}\nf(a)\nprint \"END\"\nprint a.id\n" % w),
+                "block": ("", "a = Account()\nprint a.id\nif true {\n  a.id %s\n}\nprint \"END\"\nprint a.id\n" % w),
+                "loop": ("", "a = Account()\nprint a.id\nfrom 0 to 1 {\n  a.id %s\n}\nprint \"END\"\nprint a.id\n" % w),
+                "const-instance": ("", "const a = Account()\nb = a\nprint a.id\nb.id %s\nprint \"END\"\nprint a.id\n" % w),
+            }
+            if not w.startswith("= "):
+                # by its bare name a method can only op-assign the field (`id = v` declares a local)
+                forms["method-bare-name"] = ("  fn touch(self) {\n    id %s\n  }\n" % w, "a = Account()\nprint a.id\na.touch()\nprint \"END\"\nprint a.id\n")
+            elif ty != "[int...]":          # (`modify id = [2]`: the literal is typed before the target is known; not legal on an ordinary field either)
+                forms["method-modify"] = ("  fn touch(self) {\n    modify id %s\n  }\n" % w, "a = Account()\nprint a.id\na.touch()\nprint \"END\"\nprint a.id\n")
+            for fname, (extra, hist) in sorted(forms.items(), key=lambda kv: (first.index(kv[0]) if kv[0] in first else 9, kv[0])):
+                texts = []
+                for q in ("const ", ""):
+                    texts.append({"main.ms": cls_text(q, ty, init, extra) + "print \"MARK\"\n" + hist})
+                out.append(("field `const id: %s` written by `%s` (%s)" % (ty, w, fname), texts[0], texts[1], "const-write-accepted:class-field"))
+            # from another module
+            texts = []
+            for q in ("const ", ""):
+                texts.append({"acct.ms": "export " + cls_text(q, ty, init) + "export shared: Account = Account()\n",
+                              "main.ms": "import Account, shared from acct\nprint \"MARK\"\nprint shared.id\nshared.id %s\nprint \"END\"\nprint shared.id\n" % w})
+            out.append(("field `const id: %s` written by `%s` (other module)" % (ty, w), texts[0], texts[1], "const-write-accepted:class-field"))
+    return out
+
+
+def run_const_fields(ctx, binary, base):
+    cases = const_field_cases()
+
+    def one(c):
+        return run_files(binary, base, c[1]), run_files(binary, base, c[2])
+    n = legal = 0
+    seen = set()
+    for (cid, fc, fm, cls), (rc_, rm_) in zip(cases, programs.pmap(one, cases)):
+        n += 1
+        if verdict(*rm_) != "accepted":
+            continue            # not a legal write even on an ordinary field
+        ls = rm_[1].split("\n")
+        if "END" not in ls or ls[ls.index("END") - 1] == ls[ls.index("END") + 1]:
+            continue            # legal text, but it does not change the field (e.g. `modify` of a name that is a fresh local)
+        legal += 1
+        vc = verdict(*rc_)
+        if vc != "rejected" or "MARK" in rc_[1]:
+            if cls in seen:
+                continue
+            seen.add(cls)
+            ctx.report(cls, "%s is %s: the field then shows %r (its twin without `const` is legal and changes the field)"
+                       % (cid, vc, program_lines(rc_[1])[-1:]),
+                       {"form": cid, "files": fc, "observed": {"rc": rc_[0], "stdout": rc_[1][-400:], "stderr": rc_[2][-400:]},
+                        "how": "mscript run main.ms -q: must fail to compile, nothing printed"})
+    ctx.cov["const_class_fields"] = {"cases": n, "legal_and_effective_on_an_ordinary_field": legal}
+    return n
+
+
 def run(ctx):
     ok = core.coq_props(ctx, "Props/C10.v")
     binary = core.build_repo()
@@ -935,8 +1078,9 @@ def run(ctx):
     if n_app < 0.6 * len(triples) or (r_acc + r_rej) < 0.8 * nrand:
         ctx.report("generator-degraded", "only %d of %d triples are applicable / %d of %d random programs gave a verdict: the templates no longer match the language"
                    % (n_app, len(triples), r_acc + r_rej, nrand), {"inapplicable": inapplicable[:20]}, found_input=False)
-    ndeep = run_deep_paths(ctx, binary, base) + run_import_writes(ctx, binary, base)
-    spec_fail += sum(1 for v in ctx.viol if v[0] in ("const-write-accepted:deep-path", "const-write-accepted:through-get-or", "const-write-accepted:import"))
+    ndeep = run_deep_paths(ctx, binary, base) + run_import_writes(ctx, binary, base) + run_module_copies(ctx, binary, base) + run_const_fields(ctx, binary, base)
+    spec_fail += sum(1 for v in ctx.viol if v[0] in ("const-write-accepted:deep-path", "const-write-accepted:through-get-or", "const-write-accepted:import",
+                                                     "const-write-accepted:module-member", "const-write-accepted:module-member-through-copy", "const-write-accepted:class-field"))
     ctx.cov["evaluations"] = len(triples) + sum(1 for t in triples if t["ntexts"]) + nrand + 2 * ndeep
     ctx.cov["triples"] = len(triples)
     ctx.cov["applicable"] = n_app
